@@ -40,6 +40,7 @@ type Interp struct {
 	nobj    int
 	nsym    int
 	globals map[*ssa.Global]*Obj
+	procGlobals map[string]*Obj
 	penv    map[string]*StrV
 	covers  map[string]int
 	viols   []*Violation
@@ -341,6 +342,24 @@ func (it *Interp) get(fr *frame, v ssa.Value) Value {
 }
 
 func (it *Interp) global(g *ssa.Global) *Obj {
+	if g.Pkg != nil && g.Pkg.Pkg.Path() == "os" && (g.Name() == "Stdin" || g.Name() == "Stdout" || g.Name() == "Stderr") {
+		// every modelled OS process has its own standard streams
+		proc := 0
+		if it.sch != nil && it.sch.cur != nil {
+			proc = it.sch.cur.proc
+		}
+		k := fmt.Sprintf("%s#%d", g.Name(), proc)
+		if o, ok := it.procGlobals[k]; ok {
+			return o
+		}
+		pt := g.Type().(*types.Pointer).Elem()
+		o := it.newObj(pt, Ptr{o: it.newObj(pt.Underlying().(*types.Pointer).Elem(), it.zero(pt.Underlying().(*types.Pointer).Elem()))})
+		if it.procGlobals == nil {
+			it.procGlobals = map[string]*Obj{}
+		}
+		it.procGlobals[k] = o
+		return o
+	}
 	if o, ok := it.globals[g]; ok {
 		return o
 	}
